@@ -35,6 +35,13 @@ pub fn generate_c01(tier: &str, rng: &mut Prng) -> Vec<Case> {
                 ops.push(Case::new(format!("sign {n} {} {} {}", hex(&ks), hex(&msg), rng.next() >> 1)));
             }
         }
+        // keys with a rare algebraic feature: the NTT slots of f multiply to 1, the top / constant coefficient of h is 0
+        for kind in ["f_product_one", "h_top_zero", "h_const_zero"] {
+            for ks in crate::seeds::special(n, tier, kind, 1) {
+                let msg = rng.bytes(16);
+                ops.push(Case::new(format!("sign {n} {} {} {}", hex(&ks), hex(&msg), rng.next() >> 1)));
+            }
+        }
         // several keys one after the other through locals on one thread
         for _ in 0..(if thorough { 6 } else { 1 }) {
             let seeds: Vec<String> = (0..3).map(|_| hex(&rng.bytes(32))).collect();
